@@ -3,7 +3,7 @@ from props import _proc
 import dsgcase
 
 ID = 'C07'
-CLAUSES = {'enumerated-inactive-value-not-canonical', 'unflagged-variable-inactive-in-valid-design',
+CLAUSES = {'enumerated-inactive-value-not-canonical', 'unflagged-variable-inactive-in-valid-design', 'corrected-vector-out-of-range',
            'create-flag-changes-result', 'corrected-vector-does-not-describe-the-instance',
            'decoded-vector-not-among-enumerated-rows'}
 RULE = ('as C01: activeness of every decode must satisfy decode_witness(full): active => the choice / design-variable node '
@@ -12,7 +12,7 @@ RULE = ('as C01: activeness of every decode must satisfy decode_witness(full): a
         'variable not flagged conditionally_active must be active in every row of the model; non-trivial = at least 2 rows')
 TRUSTED = ['the encoding description E is read from GraphProcessor.all_des_vars']
 PARTIAL = ['connection encoders: the direct-hit path of eager encoders is checked under C10']
-batches = _proc.make_batches('C07', ['complete', 'fast'], 400, 4000, cons_prob=0.25)
+batches = _proc.make_batches('C07', ['complete', 'fast'], 1200, 6000, cons_prob=0.25)
 run_case = _proc.make_run_case(CLAUSES)
 compare = _proc.compare
 shrink_candidates = _proc.shrink_candidates
